@@ -412,6 +412,8 @@ fn feasibility(world: &World, ctx: &InsertionContext) -> Vec<(String, String)> {
             findings
             .into_iter()
             .filter(|f| f.rule.starts_with("C01:") || f.rule == "C02:job-split" || f.rule == "C02:pickup-after-delivery" || f.rule == "C02:vehicle-shift-twice")
+            // the schedule around a required break taken on the road is not replayed: the break's own rules and the load only
+            .filter(|f| world.family != "reqbreak" || f.rule.starts_with("C01:required-break-window") || f.rule.starts_with("C01:required-break-duration") || f.rule == "C01:capacity" || f.rule.starts_with("C02:"))
             // a tour over an unreachable leg is named by problem and leg (as in C01), whatever operator left it behind
             .map(|f| (format!("I5:{}", if f.rule == "C01:unreachable-leg" { super::c01::finding_key(&f, &world.family, &world.problem) } else { f.rule.clone() }), f.what))
             .collect()
@@ -622,6 +624,19 @@ fn slice(tier: Tier) -> Vec<(String, PProblem)> {
         }
         out.extend(picked.into_iter().map(|p| (name.to_string(), p)));
     }
+    // recharge stations and required breaks (families outside of `all_families`)
+    let (rc, rb) = (family_recharge(), family_reqbreak());
+    let pick = |v: Vec<PProblem>, n: usize| -> Vec<PProblem> {
+        let v: Vec<PProblem> = v.into_iter().filter(|p| p.jobs.len() >= 2).collect();
+        let step = (v.len() / n).max(1);
+        v.into_iter().step_by(step).take(n).collect()
+    };
+    let n_extra = match tier {
+        Tier::Quick => 6,
+        _ => 18,
+    };
+    out.extend(pick(rc, n_extra).into_iter().map(|p| ("recharge".to_string(), p)));
+    out.extend(pick(rb, n_extra).into_iter().map(|p| ("reqbreak".to_string(), p)));
     // locks matching several vehicles (core API)
     for order in ["any", "sequence", "strict"] {
         let jobs: Vec<PJob> = (0..4)
@@ -813,7 +828,14 @@ fn judge_state(ctx: &RunCtx, world: &World, state: &InsertionContext, root: &str
         let mut seen = HashSet::new();
         for (key, what) in errs {
             if seen.insert(key.clone()) {
-                let full = if key.starts_with("I5:C01:unreachable-leg:") { key.clone() } else { format!("{key}:{}:{op_class}", world.family) };
+                let full = if key.starts_with("I5:C01:unreachable-leg:") {
+                    key.clone()
+                } else if key.ends_with(":reported-before-arrival") {
+                    // a recorded defect of the solution writer, whatever operator built the tour
+                    format!("{key}:{}", world.family)
+                } else {
+                    format!("{key}:{}:{op_class}", world.family)
+                };
                 report.violation(Violation::new(full, what, scen(world, root, hist, names)));
             }
         }
